@@ -896,7 +896,7 @@ BAD_FORMATS = ['/sim/%(program_name)s +%d', '/sim/x --stamp=%e', '/sim/x -t %c',
                '/sim/x %(here)d', '/sim/x %(group_name)x', '/sim/x +%H:%M', '/sim/x +%Y', '/sim/x %(nosuch)s', '/sim/x %']
 BAD_OPTIONS = [('startsecs', 'soon'), ('autostart', 'maybe'), ('stopsignal', 'NOSUCH'), ('exitcodes', '0,x'), ('priority', 'high'), ('user', 'no-such-user-verif'),
                ('stdout_logfile', '/nonexistent-verif/x.log'), ('environment', 'A'), ('numprocs', '2'), ('umask', '9')]
-BAD_RAW = ['command=/sim/stray\n[supervisord]\n', '[supervisord]\n[program:a\ncommand=/sim/a\n', '', '[program:a]\ncommand=/sim/a\n',
+BAD_RAW = ['command=/sim/stray\n[supervisord]\n', '', '[program:a]\ncommand=/sim/a\n',
            '[supervisord]\n\n[program:a]\ncommand=/sim/a\nthis is no option line\n', '[supervisord]\n[include]\n']
 
 
@@ -1016,6 +1016,23 @@ def run_one(ctx, inp, report):
             ctx.count('daemon:' + r['kind'])
     for st in states:
         ctx.count('daemon:state-at-reread-or-removal:' + l2.ST.get(st, str(st)))
+    if inp.get('real'):
+        # a version the generator calls unparsable must be one an independent parse rejects
+        import config_l1 as L
+        path = os.path.join(ctx.scratch, 'c15real', 'check.conf')
+        for i, f in enumerate(inp['files']):
+            if not isinstance(f, list):
+                with open(path, 'w', encoding='utf-8') as fh:
+                    fh.write(render_version(f, k.rundir, k.childlogdir))
+                cwd0 = os.getcwd()
+                try:
+                    os.chdir(k.rundir)
+                    st = L.parse_with(L.make_options(L.ENV_VARS), path, reread=True).status
+                finally:
+                    os.chdir(cwd0)
+                if st == 'ok':
+                    from framework import Infra
+                    raise Infra('C15 daemon population: file version %d of %r is marked unparsable but parses' % (i, inp.get('label')))
     monitor(ctx, k, inp, report)
     ctx.case_done(('daemon', repr(inp['files']), repr(inp['script']), repr(inp['steps']), inp['start'], repr(inp['lat'])), True)
     return k
